@@ -18,7 +18,7 @@ pub const ENTRY: Entry = Entry {
     rule: "real Builder::init on external models with 20 framebuffer sizes (all of {1,240,65535}^2, the built-in sizes, \
            32767x32768, 32768x32767, 65534x65535, 65535x32768, ...) x (w,h,ox,oy) over a per-dimension boundary lattice \
            {0,1,2,F-1,F,F+1,65535-F,65536-F,65537-F,32767,32768,65534,65535} (~28k-65k tuples per size) x {with, without reset pin} x {default options, a rotated/mirrored option set, a second option set with the builder \
-           options given before `.reset_pin()` and/or the interface lent as `&mut`}; thorough adds all 2^32 (w,ox) pairs and all 2^32 (h,oy) pairs for three sizes with the other dimension valid / \
+           options given before `.reset_pin()` and/or the interface lent as `&mut`}; plus every built-in model with strips / single pixels / oversize windows of its own framebuffer; thorough adds all 2^32 (w,ox) pairs and all 2^32 (h,oy) pairs for three sizes with the other dimension valid / \
            offset-overflowing. Oracle: u64 predicate decides Ok / InvalidDisplaySize / InvalidDisplayOffset; on rejection the reset pin, \
            the delay source and the bus have seen zero operations. Checked and wrapping arithmetic builds. Non-trivial = rejected \
            configurations and accepted ones with a non-zero offset.",
@@ -137,6 +137,56 @@ fn run(ctx: &Ctx) -> Part {
             acc
         })
         .reduce(Acc::new, Acc::merge);
+    // every built-in model with a window lattice of its own framebuffer (a model's init must not add
+    // conditions of its own): strips of 1..8 lines / columns, single pixels, the full window, too large
+    let bjobs: Vec<(usize, bool)> = (0..BUILTINS.len()).flat_map(|i| [false, true].into_iter().map(move |r| (i, r))).collect();
+    let b = bjobs
+        .par_iter()
+        .fold(Acc::new, |mut acc, &(i, rst)| {
+            let info = &BUILTINS[i];
+            let (fw, fh) = info.fb;
+            let tr = if info.supports[0] { Transport::RecSerial } else { Transport::RecPar8 };
+            let ws = [0u16, 1, 2, 7, 8, 9, fw / 2, fw - 1, fw, fw + 1];
+            let hs = [0u16, 1, 2, 7, 8, 9, fh / 2, fh - 1, fh, fh + 1];
+            for &w in &ws {
+                for &h in &hs {
+                    for (ox, oy) in [(0u16, 0u16), (1, 0), (0, 1), (fw.saturating_sub(w), fh.saturating_sub(h)), (fw.saturating_sub(w) + 1, 0)] {
+                        for o in [0u8, 1, 6] {
+                            acc.evaluations += 1;
+                            acc.nontrivial += 1;
+                            let want = init_spec(fw, fh, w, h, ox, oy);
+                            let bd = Board::new(Board::default_levels());
+                            bd.borrow_mut().count_only = true;
+                            let cfg = Cfg { model: ModelId::Builtin(i as u8), tr, win: Some((w, h, ox, oy)), orient: o, bgr: false, invert: false, refresh: 0, rst, flags: if o == 6 { F_ZST_RST } else { 0 } };
+                            let mut res = None;
+                            let out = guarded(|| {
+                                res = Some(init_only(&cfg, &bd).res);
+                                Ok(())
+                            });
+                            let bb = bd.borrow();
+                            let ok = match (&want, &res, &out) {
+                                (_, _, Outcome::Panic(_)) => false,
+                                (InitVerdict::Ok, Some(Ok(_)), _) => true,
+                                (InitVerdict::InvalidSize, Some(Err(ErrClass::InvalidDisplaySize)), _) | (InitVerdict::InvalidOffset, Some(Err(ErrClass::InvalidDisplayOffset)), _) => bb.ops == 0 && bb.delay_calls == 0,
+                                _ => false,
+                            };
+                            if !ok {
+                                acc.violation(Violation {
+                                    prop: ctx.prop.clone(),
+                                    sig: format!("init/{}/builtin-verdict", match want { InitVerdict::Ok => "fits", InitVerdict::InvalidSize => "bad-size", InitVerdict::InvalidOffset => "bad-offset" }),
+                                    msg: format!("{} ({}x{}), size {w}x{h}, offset ({ox},{oy}), orientation {o}, reset pin {rst}: init returned {:?} ({:?}) after {} pin/bus operations, specification {:?}", info.name, fw, fh, res.as_ref().map(|r| r.as_ref().map(|_| "Ok")), out, bb.ops, want),
+                                    case: json!({"kind": "init", "variant": ctx.variant, "cfg": cfg, "which": 11}),
+                                });
+                            }
+                            acc.count("builtin_model_inits", 1);
+                        }
+                    }
+                }
+            }
+            acc
+        })
+        .reduce(Acc::new, Acc::merge);
+    acc = acc.merge(b);
     acc.states = SIZES.len() as u64 * 2;
     // thorough: complete u16^2 sweeps of one dimension
     if !quick {
